@@ -793,6 +793,24 @@ pub fn record_directed(out: &mut TraceOut, thorough: bool) -> Value {
         v.push(Message::QueryState(a));
         run(out, v, if ci % 2 == 0 { PageFlipStyle::Manual } else { PageFlipStyle::Automatic });
     }
+    // many one-chunk pages with page numbers scattered over the whole 8-bit range in one transfer, then the 'complete' message
+    // (anything that orders, indexes or bounds pages by number or by count shows between 20 and a few hundred pages)
+    for (pi, npages) in [20usize, 21, 33, 50, 64, 100, 257, 300].into_iter().enumerate() {
+        let mut v = vec![Message::RequestOperation(a, Operation::ReceiveConfig), sd(0, &cfg_tiny()), Message::DataChunksSent(ChunkCount(1)), Message::RequestOperation(a, Operation::ReceivePixels)];
+        let mut x = 0x9E37u32 + pi as u32;
+        for _ in 0..npages {
+            x = x.wrapping_mul(1_103_515_245).wrapping_add(12_345);
+            let id = (x >> 16) as u8;
+            v.push(sd(0, &[id, 16, 0, 0, (x >> 8) as u8, x as u8, 0, 0, 0, 0, 0, 0, 255, 255, 255, 255]));
+        }
+        v.push(Message::DataChunksSent(ChunkCount(npages as u16)));
+        v.push(Message::QueryState(a));
+        v.push(Message::PixelsComplete(a));
+        v.push(Message::QueryState(a));
+        v.push(Message::RequestOperation(a, Operation::ShowLoadedPage));
+        v.push(Message::QueryState(a));
+        run(out, v, if pi % 2 == 0 { PageFlipStyle::Manual } else { PageFlipStyle::Automatic });
+    }
     // more than 64 KiB buffered in one transfer without ever restarting at offset 0 (300 chunks of 255 bytes at a fixed offset)
     {
         let mut v = vec![Message::RequestOperation(a, Operation::ReceiveConfig), sd(0, &cfg_tiny()), Message::DataChunksSent(ChunkCount(1)), Message::RequestOperation(a, Operation::ReceivePixels)];
@@ -892,10 +910,26 @@ pub fn record_bus_walks(a: &Args, out: &mut TraceOut, salt: u64, walks: usize, s
             absent = absent.wrapping_add(1);
         }
         let flips: Vec<PageFlipStyle> = (0..n).map(|i| if (i + w) % 2 == 0 { PageFlipStyle::Manual } else { PageFlipStyle::Automatic }).collect();
-        let signs: Vec<VirtualSign<'static>> = (0..n).map(|i| VirtualSign::new(Address(addrs[i]), flips[i])).collect();
+        let mut signs: Vec<VirtualSign<'static>> = (0..n).map(|i| VirtualSign::new(Address(addrs[i]), flips[i])).collect();
+        // every other population is made of signs with a history of their own (driven off the bus, possibly left in the
+        // middle of a transfer) before the bus is built around them
+        if w % 2 == 1 {
+            for (i, sg) in signs.iter_mut().enumerate() {
+                let mut pre = Walker { rng: StdRng::seed_from_u64(rng.r#gen()), own: vec![addrs[i]], foreign: absent, cfg_dims: None, doctored: false };
+                let (mut s0, mut c0) = (0usize, 0u32);
+                let k = [0usize, 1, 2, 3, 5, 8, 20][rng.gen_range(0..7)];
+                for _ in 0..k {
+                    let m = pre.next(sg.state(), sg.sign_type().map(|t| t.dimensions()), &mut s0, &mut c0);
+                    if catch(std::panic::AssertUnwindSafe(|| sg.process_message(&m))).is_err() {
+                        break;
+                    }
+                }
+            }
+        }
+        let pre_obs: Vec<Value> = signs.iter().map(obs).collect();
         let mut bus = VirtualSignBus::new(signs);
         logging(w % 3 == 2);
-        out.emit(json!({"e": "busreset", "signs": (0..n).map(|i| json!({"addr": addrs[i], "flip": flip_name(flips[i])})).collect::<Vec<_>>()}));
+        out.emit(json!({"e": "busreset", "signs": (0..n).map(|i| json!({"addr": addrs[i], "flip": flip_name(flips[i]), "obs": pre_obs[i]})).collect::<Vec<_>>()}));
         let mut walker = Walker { rng, own: addrs.clone(), foreign: absent, cfg_dims: None, doctored: true };
         let mut focus = 0usize;
         let (mut sent, mut chunks) = (vec![0usize; n], vec![0u32; n]);
@@ -979,7 +1013,7 @@ fn run_bus_script(out: &mut TraceOut, desc: &[(u16, PageFlipStyle)], msgs: Vec<M
 
 /// Directed bus histories for C14: two signs mid-transfer at once with a very long chunk stream; address pairs that
 /// differ in one bit; every addressed kind sent to the single-bit neighbours of a present address.
-fn record_bus_directed(out: &mut TraceOut) -> Value {
+fn record_bus_directed(out: &mut TraceOut, thorough: bool) -> Value {
     let mut steps = 0usize;
     let cfg = |a: u16| -> Vec<Message<'static>> {
         vec![Message::RequestOperation(Address(a), Operation::ReceiveConfig), sd(0, &cfg_tiny()), Message::DataChunksSent(ChunkCount(1)),
@@ -1026,6 +1060,57 @@ fn record_bus_directed(out: &mut TraceOut) -> Value {
         v.push(Message::QueryState(Address(3)));
         steps += run_bus_script(out, &[(3, PageFlipStyle::Manual), (6, PageFlipStyle::Manual)], v);
     }
+    // (1c) a long stretch of traffic that carries no data at all (queries, greetings, refused requests, to the other sign and
+    // to an address nobody has) while a sign sits in the middle of a transfer, which is then completed normally: time-outs
+    // and counters of "quiet" messages anywhere on the bus would show
+    for (quiet, mid_cfg) in [(if thorough { 70_000usize } else { 1_100 }, false), (if thorough { 66_000 } else { 1_300 }, true)] {
+        out.balance();
+        let mut v = vec![];
+        if mid_cfg {
+            v.push(Message::RequestOperation(Address(3), Operation::ReceiveConfig));
+        } else {
+            v.extend(cfg(3));
+            v.push(sd(0, &[9, 16, 0, 0, 1, 2, 3, 4]));
+        }
+        for i in 0..quiet {
+            v.push(match i % 5 {
+                0 => Message::QueryState(Address(6)),
+                1 => Message::Hello(Address(0x2A)),
+                2 => Message::RequestOperation(Address(6), Operation::ShowLoadedPage),
+                3 => Message::PixelsComplete(Address(6)),
+                _ => Message::QueryState(Address(0x2A)),
+            });
+        }
+        if mid_cfg {
+            v.push(sd(0, &cfg_tiny()));
+            v.push(Message::DataChunksSent(ChunkCount(1)));
+        } else {
+            v.push(sd(8, &[5, 6, 7, 8, 255, 255, 255, 255]));
+            v.push(Message::DataChunksSent(ChunkCount(2)));
+        }
+        v.push(Message::QueryState(Address(3)));
+        v.push(Message::QueryState(Address(6)));
+        steps += run_bus_script(out, &[(3, PageFlipStyle::Manual), (6, PageFlipStyle::Automatic)], v);
+    }
+    // (1d) replies travelling on the same wire: acknowledgements and state reports carrying another sign's (or nobody's) address
+    // are put on the bus while a sign is receiving
+    {
+        out.balance();
+        let mut v = cfg(3);
+        v.push(sd(0, &[9, 16, 0, 0, 1, 2, 3, 4]));
+        for ad in [6u16, 0x2A, 3] {
+            for o in j::OPS {
+                v.push(Message::AckOperation(Address(ad), o));
+            }
+            for st8 in j::STATES {
+                v.push(Message::ReportState(Address(ad), st8));
+            }
+        }
+        v.push(sd(8, &[5, 6, 7, 8, 255, 255, 255, 255]));
+        v.push(Message::DataChunksSent(ChunkCount(2)));
+        v.push(Message::QueryState(Address(3)));
+        steps += run_bus_script(out, &[(3, PageFlipStyle::Manual), (6, PageFlipStyle::Automatic)], v);
+    }
     // (2) single-bit neighbours: every addressed kind to x ^ (1 << k), with x alone and with both on the bus
     for (k, x) in [(15usize, 0x0012u16), (15, 0xFFFF), (8, 0x0003), (0, 0x0100), (7, 0x1234), (14, 0x4000)] {
         let y = x ^ (1u16 << k);
@@ -1060,7 +1145,7 @@ fn record_bus_directed(out: &mut TraceOut) -> Value {
 pub fn record_c14(a: &Args) -> usize {
     let mut out = TraceOut::new(&a.out, "C14", a.shards);
     let thorough = a.tier == "thorough";
-    let d = record_bus_directed(&mut out);
+    let d = record_bus_directed(&mut out, thorough);
     println!("INFO {}", json!({"directed": d}));
     let b = record_bus_walks(a, &mut out, 0xC14, if thorough { 160 } else { 24 }, if thorough { 2500 } else { 400 }, false);
     println!("INFO {}", json!({"bus": b}));
